@@ -83,3 +83,30 @@ Theorem C04_blank_only_for_side_mismatch ltr np right :
   is_blank ltr np right = true -> exists w, want_side ltr np = Some w /\ w <> right.
 Proof. exact (blank_only_for_side_mismatch ltr np right). Qed.
 Print Assumptions C04_blank_only_for_side_mismatch.
+
+(* ---- a change of named page between two siblings.  block_level_page_name(sibling_before, sibling_after) of
+   weasyprint/layout/block.py REGENERATED from the source on every run (gen/GenPageName.v): with page_values() an
+   oracle answering (start, end) page names per box, it returns the start page name of the box after exactly when
+   it differs from the end page name of the box before, and None (falls off its end) otherwise *)
+Require WV.base.PyLink WV.gen.GenPageName WV.proofs.C04_gen_page_name.
+Module PN := WV.proofs.C04_gen_page_name.
+
+Theorem C04_source_page_name_change_reported O sb sa s1 e1 s2 e2 :
+  PN.page_values_oracle O sb s1 e1 -> PN.page_values_oracle O sa s2 e2 ->
+  run O GenPageName.block_level_page_name_body
+      [("sibling_before"%string, VObj sb); ("sibling_after"%string, VObj sa)]
+      (fun _ r => r = if String.eqb e1 s2 then None else Some (VStr s2)) (fun _ => False).
+Proof. exact (PN.gen_block_level_page_name_eqb O sb sa s1 e1 s2 e2). Qed.
+Print Assumptions C04_source_page_name_change_reported.
+
+(* ... as the value of the call `page_name = block_level_page_name(last_in_flow_child, child)`: *)
+Theorem C04_source_page_name_call O sb sa s1 e1 s2 e2 :
+  PN.page_values_oracle O sb s1 e1 -> PN.page_values_oracle O sa s2 e2 ->
+  let v := PyLink.call_body O (GenPageName.block_level_page_name_args, GenPageName.block_level_page_name_body)
+                            [VObj sb; VObj sa] in
+  (e1 <> s2 -> v = VStr s2) /\ (e1 = s2 -> v = VNone) /\
+  (* the caller's test `if page_name or force_page_break(...)` sees a true value exactly for a change to a NAMED
+     page; a change back to the unnamed page '' is returned but is not truthy *)
+  (truthy O v = true <-> e1 <> s2 /\ s2 <> ""%string).
+Proof. exact (PN.page_name_call_spec O sb sa s1 e1 s2 e2). Qed.
+Print Assumptions C04_source_page_name_call.
